@@ -253,7 +253,10 @@ static Outcome run_reader(const Case &c) {
     } else if (op.k == "eintr")
       K().poll_eintr.push_back(1);
   }
-  r.R = shim_nr_init(r.fd);
+  // one reader in four sits on a transport reached through the function-pointer hooks which the SSL layer uses (chosen by the case)
+  bool hooked = (pbt::fnv(to_text(c)) >> 5) % 4 == 0;
+  r.R = hooked ? shim_nr_init_hooked(r.fd) : shim_nr_init(r.fd);
+  if (hooked) X->cls.insert("transport-behind-ssl-hooks");
   if (!r.R) x.fail("init-failed", "netbuf_read_init returned NULL");
   int turns = 0;
   while (!x.failed && !r.ended && (r.waiting || r.next < r.steps.size()) && turns++ < 40000) {
@@ -415,7 +418,9 @@ static Outcome run_writer(const Case &c) {
       w.in_fail_len = (size_t)std::min<int64_t>(std::max<int64_t>(op.a.size() > 1 ? op.a[1] : 0, 0), 10000);
       w.null_failcb = op.a.size() > 2 && (op.a[2] & 1);
     }
-  w.W = shim_nw_init(w.fd, w.null_failcb ? nullptr : wr_fail_cb, &w);
+  bool hooked = (pbt::fnv(to_text(c)) >> 5) % 4 == 0;
+  w.W = hooked ? shim_nw_init_hooked(w.fd, w.null_failcb ? nullptr : wr_fail_cb, &w) : shim_nw_init(w.fd, w.null_failcb ? nullptr : wr_fail_cb, &w);
+  if (hooked) x.cls.insert("transport-behind-ssl-hooks");
   if (w.null_failcb) x.cls.insert("no-failure-callback");
   if (!w.W) x.fail("init-failed", "netbuf_write_init returned NULL");
   long nops = 0;
